@@ -54,3 +54,4 @@ Definition registry_accesses : list (string * string * string) := [
 Definition set_iterations : list string := [].
 Definition session_accessors : list (string * string) := [("_BaseSession.execution_dialect_name", "property"); ("_BaseSession.read", "property"); ("_BaseSession.catalog", "cached_property"); ("_BaseSession._conn", "property"); ("_BaseSession._cur", "cached_property"); ("_BaseSession.default_time_format", "property"); ("_BaseSession._has_connection", "property"); ("_BaseSession.udf", "property"); ("_BaseSession._auto_incrementing_name", "property"); ("_BaseSession._random_branch_id", "property"); ("_BaseSession._random_sequence_id", "property"); ("_BaseSession._random_id", "property"); ("_BaseSession._join_hint_names", "property"); ("_BaseSession._is_bigquery", "property"); ("_BaseSession._is_databricks", "property"); ("_BaseSession._is_duckdb", "property"); ("_BaseSession._is_postgres", "property"); ("_BaseSession._is_redshift", "property"); ("_BaseSession._is_snowflake", "property"); ("_BaseSession._is_spark", "property"); ("_BaseSession._is_standalone", "property"); ("DuckDBSession._cur", "cached_property"); ("DuckDBSession._is_duckdb", "property")].
 Definition inplace_builder_calls : list string := [].
+Definition temp_object_names : list (string * string) := [("databricks/readwriter.DatabricksDataFrameWriter._write:tmp_table", "fresh"); ("spark/readwriter.SparkDataFrameReader.load:tmp_view_key", "fresh")].
